@@ -59,6 +59,26 @@ var stmtGroups = map[string][]stmtTarget{
 	"schedulerelect": {
 		{"go/consensus/cometbft/apps/scheduler/scheduler.go", "Application", "elect", "elect"},
 	},
+	// C10: the key manager's epoch-transition status computation (OasisModel/Keymanager/Status.lean)
+	"kmstatus": {
+		{"go/consensus/cometbft/apps/keymanager/secrets/status.go", "", "generateStatus", "generateStatus"},
+	},
+	// C16: the consumers of a check-tx batch response of the untrusted runtime (OasisModel/Rhp/CheckTx.lean)
+	"checktx": {
+		{"go/runtime/host/helpers.go", "richRuntime", "CheckTx", "richCheckTx"},
+		{"go/runtime/txpool/txpool.go", "txPool", "checkTxBatch", "checkTxBatch"},
+	},
+	// C13: commit, failed commit and retry (OasisModel/Mkvs/CommitRetry.lean)
+	"commit": {
+		{"go/storage/mkvs/commit.go", "tree", "commitWithHooks", "commitWithHooks"},
+		{"go/storage/mkvs/commit.go", "tree", "CommitKnown", "commitKnown"},
+	},
+	// C04: lookup with a proof builder (OasisModel/Mkvs/Proof.lean doGet inclusion, ProofPosition.lean)
+	"lookup": {
+		{"go/storage/mkvs/lookup.go", "tree", "doGet", "doGet"},
+		{"go/storage/mkvs/syncer/proof.go", "ProofBuilder", "Build", "proofBuild"},
+		{"go/storage/mkvs/syncer/proof.go", "ProofBuilder", "Include", "proofInclude"},
+	},
 	// C05/C15: the reward and debonding loops whose deferred writes the ledger model mirrors
 	"stakingloops": {
 		{"go/consensus/cometbft/apps/staking/state/state.go", "MutableState", "AddRewards", "addRewards"},
